@@ -263,62 +263,12 @@ def run(ctx):
     # ---------------- R4 ------------------------------------------------
     r4 = ctx.rule(
         "C09.R4",
-        "DEP: with return_results the third element returned pairs the scan points with the hypotest results "
-        "(grid mode: (scan, results); automatic mode: the cache's keys and values)",
-        "DEP", floor=2,
+        "RESULTS (interpreted): with return_results the third element is (points, results) with as many results as points and "
+        "results[i] the hypothesis-test result AT points[i] -- for a grid with a repeated point through upper_limit and "
+        "linear_grid_scan directly, and for the automatic scan; without return_results two elements are returned",
+        "RESULTS", floor=4,
     )
-    for fn_, guard in ((lin, "return_results"), (toms, "from_upper_limit_fn")):
-        fdeps = Deps(fn_.node)
-        found = False
-        for n in ast.walk(fn_.node):
-            if isinstance(n, ast.If) and guard in A.names_loaded(n.test):
-                for r in n.body:
-                    if isinstance(r, ast.Return) and isinstance(r.value, ast.Tuple) and len(r.value.elts) == 3:
-                        found = True
-                        third = r.value.elts[2]
-                        exact = True
-                        if fn_ is lin:
-                            exact = isinstance(third, ast.Tuple) and len(third.elts) == 2 and A.dotted(third.elts[0]) == "scan" and isinstance(third.elts[1], ast.Name) and _depends_on_call(fdeps, third.elts[1], "hypotest", fn_.node) and not isinstance(third.elts[1], ast.Call)
-                        elif isinstance(third, ast.Tuple) and len(third.elts) == 2:
-                            t0, t1 = A.unparse(third.elts[0]).replace(" ", ""), A.unparse(third.elts[1]).replace(" ", "")
-                            exact = t0 in ("list(cache)", "list(cache.keys())") and t1 == "list(cache.values())"
-                        if not exact:
-                            ctx.violated(r4, fn_, r, "the per-point results are not returned as (the scan points, the hypotest results at those points) in matching order", expected="(scan, results) / (list(cache), list(cache.values()))", found=A.short(third, 80), node=r)
-                        elif _depends_on_call(fdeps, third, "hypotest", fn_.node):
-                            ctx.holds(r4, f"{UL}::{fn_.name}: {A.short(r, 70)}")
-                        else:
-                            ctx.violated(r4, fn_, r, "per-point results returned do not derive from the hypotest evaluations", expected="(points, hypotest results)", found=A.short(third, 60), node=r)
-        if not found:
-            ctx.unrecognised(r4, fn_, guard, "no 3-tuple return guarded by the results flag")
-    for scan_given in (True, False):
-        for rr in (True, False):
-            lab = f"scan={'given' if scan_given else 'None'} return_results={rr}"
-            try:
-                seen = {}
-                RES = (Obj("POINTS"), Obj("POINT_RESULTS"))
-                ext = {"linear_grid_scan": lambda a, k: (seen.__setitem__("grid", (a, k)) or ((Poly.atom("OBS"), Poly.atom("EXP"), RES) if (len(a) > 4 and a[4] is True) or k.get("return_results") is True else (Poly.atom("OBS"), Poly.atom("EXP")))),
-                       "toms748_scan": lambda a, k: (seen.__setitem__("auto", (a, k)) or (Poly.atom("OBS"), Poly.atom("EXP"), RES)),
-                       "sorted": lambda a, k: Obj(f"sorted({getattr(a[0], 'name', a[0])})"), "reversed": lambda a, k: Obj(f"reversed({getattr(a[0], 'name', a[0])})")}
-                cfg = Obj("config", {"poi_name": "mu"})
-                env = {"data": Obj("data"), "model": Obj("model", {"config": cfg}), "scan": (Poly.atom("SCAN") if scan_given else None), "level": Poly.atom("LEVEL"), "return_results": rr, "hypotest_kwargs": {}}
-                out = Interp(env, {}, {}, externals={**ext, ".suggested_bounds": lambda r_, a, k: [(Poly.atom("LO"), Poly.atom("HI"))], ".par_slice": lambda r_, a, k: Obj("sl", {"start": Poly.const(0)})}).run(A.strip_docstring(upper_limit.node.body))
-                want = ["OBS", "EXP", "(POINTS, POINT_RESULTS)"] if rr else ["OBS", "EXP"]
-                show = lambda x: ("(" + ", ".join(getattr(y, "name", str(y)) for y in x) + ")") if isinstance(x, (tuple, list)) else (x.name if isinstance(x, Obj) else str(to_poly(x)))
-                got = [show(x) for x in out] if isinstance(out, (tuple, list)) else [show(out)]
-                if got == want:
-                    ctx.holds(r4, f"{UL}::upper_limit [{lab}]", "returns the scan function's values unchanged")
-                else:
-                    ctx.violated(r4, upper_limit, f"upper_limit return [{lab}]", "upper_limit does not hand back the scan's (observed, expected, per-point results) unchanged: the points and the results reported no longer correspond", expected=str(want), found=str(got))
-            except Undecided as e:
-                ctx.unrecognised(r4, upper_limit, f"upper_limit [{lab}]", f"not interpretable: {e}")
-    # upper_limit returns what the scan returned
-    udeps = Deps(upper_limit.node)
-    rets = [n for n in ast.walk(upper_limit.node) if isinstance(n, ast.Return) and n.value is not None]
-    for r in rets:
-        if _depends_on_call(udeps, r.value, "toms748_scan", upper_limit.node) or _depends_on_call(udeps, r.value, "linear_grid_scan", upper_limit.node):
-            ctx.holds(r4, f"{UL}::upper_limit: {A.short(r, 60)}")
-        else:
-            ctx.violated(r4, upper_limit, r, "upper_limit returns something not produced by a scan function", node=r)
+    _results_interpreted(ctx, r4, repo)
 
 
 # ----------------------------------------------------------------------
@@ -393,16 +343,14 @@ def _check_hypotest_call(ctx, rid, owner, hc, fn, label, comp_var=False):
         ctx.holds(rid, site, "poi, data, model, return_expected_set=True, **hypotest_kwargs")
 
 
-def _interpreted(ctx, r5, r6, repo):
-    from fractions import Fraction as F_
+def _mk_world(repo, region, rec, cls_of):
+    """World for the scan functions: recording hypotest (its result carries the point it was evaluated at), numpy.interp
+    and toms748 as recorders, numpy.unique by the region's numeric values."""
     from .. import listnp
-    from ..alg import AutoRegion, Closure, NotHandled, PyFunc
+    from ..alg import Closure
     from ..objmodel import World
-    lin, toms, ul = repo.func(UL, "linear_grid_scan"), repo.func(UL, "toms748_scan"), repo.func(UL, "upper_limit")
     at = Poly.atom
-    errs = (Undecided, KeyError, TypeError, ValueError, IndexError, AttributeError)
-
-    def mk_world(region, rec, cls_of):
+    if True:
         ext = listnp.externals()
 
         def hypotest(a, k):
@@ -424,8 +372,12 @@ def _interpreted(ctx, r5, r6, repo):
             args = list(k.get("args", ()))
             rec["toms748"].append({"bracket": (str(to_poly(lo)), str(to_poly(hi))), "args": [str(to_poly(x)) for x in args], "xtol": k.get("xtol"), "rtol": k.get("rtol")})
             if isinstance(f, Closure):
-                for x in (lo, hi):
+                for x in (lo, hi, (to_poly(lo) + to_poly(hi)) / 2):  # a root finder evaluates the ends, then interior points: not in increasing order
+                    n0 = len(rec["hypotest"])
                     f.interp.call_function(f.node, [x] + args, {})
+                    for h in rec["hypotest"][n0:]:
+                        if h["poi"] != str(to_poly(x)):
+                            rec.setdefault("moved", []).append((str(to_poly(x)), h["poi"]))
             return at(f"ROOT{len(rec['toms748']) - 1}")
 
         def num(v):
@@ -451,11 +403,34 @@ def _interpreted(ctx, r5, r6, repo):
                     menv[st_.targets[0].id] = {}
                 elif isinstance(v_, (ast.List, ast.Set)) and not v_.elts:
                     menv[st_.targets[0].id] = []
+        def unique(a, k):
+            vals = listnp._flatten(a[0]) if isinstance(a[0], (list, tuple)) else [a[0]]
+            seen_, out_ = set(), []
+            for v in sorted(vals, key=lambda v: num(v)):
+                if num(v) not in seen_:
+                    seen_.add(num(v))
+                    out_.append(v)
+            return listnp.T(out_)
+
+        ext["unique"] = unique
         w = World(ext, region=region, module_env=menv)
         for q, f in repo.module(UL).funcs.items():
             if "." not in q:
                 w.add_func(f)
         return w
+
+
+def _interpreted(ctx, r5, r6, repo):
+    from fractions import Fraction as F_
+    from .. import listnp
+    from ..alg import AutoRegion, Closure, NotHandled, PyFunc
+    from ..objmodel import World
+    lin, toms, ul = repo.func(UL, "linear_grid_scan"), repo.func(UL, "toms748_scan"), repo.func(UL, "upper_limit")
+    at = Poly.atom
+    errs = (Undecided, KeyError, TypeError, ValueError, IndexError, AttributeError)
+
+    def mk_world(region, rec, cls_of):
+        return _mk_world(repo, region, rec, cls_of)
 
     # ---------------------------------------------------------------- grid
     obs_curve = {0: F_(9, 10), 1: F_(1, 2), 2: F_(1, 5), 3: F_(1, 100)}
@@ -539,6 +514,8 @@ def _interpreted(ctx, r5, r6, repo):
             if h["data"] is not data_list or h["model"] is not MODEL or kw.get("return_expected_set") is not True or missing:
                 probs.append(f"the hypotest at mu = {h['poi']} does not receive the caller's data, model and options" + (f": option(s) {missing} given to upper_limit are not passed on, so the limit solves CLs = level for a different test than the caller configured" if missing else ""))
                 break
+        if rec.get("moved"):
+            probs.append(f"the root finder asks for CLs at mu = {rec['moved'][0][0]} and the hypothesis test is run at mu = {rec['moved'][0][1]}: the function handed to the root finder is not CLs(mu) - level at the point asked for (a step function on an absolute lattice cannot be solved to a relative tolerance)")
         tcs = rec["toms748"]
         if len(tcs) != 6:
             probs.append(f"{len(tcs)} root searches, expected 1 observed + 5 expected")
@@ -566,3 +543,92 @@ def _interpreted(ctx, r5, r6, repo):
             ctx.holds(r6, f"{UL}::toms748_scan [second call, data refilled in place]", f"{len(second)} fresh hypotest evaluations on the current data")
     except errs as e:
         ctx.unrecognised(r6, ul, "upper_limit (automatic)", f"not interpretable: {type(e).__name__}: {e}")
+
+
+def _results_interpreted(ctx, rid, repo):
+    from fractions import Fraction as F_
+    from .. import listnp
+    from ..alg import AutoRegion, NotHandled
+    lin, toms, ul = repo.func(UL, "linear_grid_scan"), repo.func(UL, "toms748_scan"), repo.func(UL, "upper_limit")
+    at = Poly.atom
+    errs = (Undecided, KeyError, TypeError, ValueError, IndexError, AttributeError)
+
+    def judge(out, rr, site, where, label):
+        if not rr:
+            if isinstance(out, (tuple, list)) and len(out) == 2:
+                ctx.holds(rid, site, "(observed, expected)")
+            else:
+                ctx.violated(rid, where, label, "without return_results the result is not the pair (observed limit, expected limits)", found=f"{len(out) if isinstance(out, (tuple, list)) else type(out).__name__} element(s)")
+            return
+        ok = isinstance(out, (tuple, list)) and len(out) == 3 and isinstance(out[2], (tuple, list)) and len(out[2]) == 2
+        if not ok:
+            ctx.violated(rid, where, label, "with return_results the third element is not the pair (scan points, per-point results)", found=str(type(out).__name__))
+            return
+        pts, res = out[2]
+        try:
+            pts = [str(to_poly(x)) for x in listnp._flatten(pts)] if isinstance(pts, (list, tuple)) else None
+            res = list(res) if isinstance(res, (list, tuple)) else None
+        except Undecided:
+            pts = None
+        if pts is None or res is None:
+            ctx.violated(rid, where, label, "the reported points / results are not sequences", found=f"{type(out[2][0]).__name__}, {type(out[2][1]).__name__}")
+            return
+        if len(pts) != len(res):
+            ctx.violated(rid, where, label, f"{len(pts)} scan points are reported with {len(res)} per-point results: results[i] is no longer the hypothesis test at points[i]", expected="as many results as points", found=f"{len(pts)} points, {len(res)} results")
+            return
+        for i_, (p_, r_) in enumerate(zip(pts, res)):
+            tag = None
+            if isinstance(r_, (tuple, list)) and r_:
+                tag = str(to_poly(r_[0]))
+            if tag != f"cls0<{p_}>":
+                ctx.violated(rid, where, label, f"the result reported for scan point {p_} (position {i_}) is the hypothesis test evaluated somewhere else ({tag})", expected=f"cls0<{p_}>", found=str(tag))
+                return
+        ctx.holds(rid, site, f"{len(pts)} points, results[i] evaluated at points[i]")
+
+    obs = {0: F_(9, 10), 1: F_(1, 2), 2: F_(1, 5), 3: F_(1, 100)}
+    # ---- grid with a repeated point (a coarse grid refined around the crossing shares a point)
+    for via, rr in (("linear_grid_scan", True), ("upper_limit", True), ("upper_limit", False)):
+        rec = {"hypotest": [], "interp": [], "toms748": []}
+        region = AutoRegion()
+        for i in range(4):
+            region[f"x{i}"] = F_(i)
+        region["LEVEL"] = F_(1, 20)
+
+        def cls_of(poi, region=region):
+            i = int(poi.evalf(region))
+            return [obs[i] / (k + 1) for k in range(6)]
+
+        label = f"{via}(scan with a repeated point, return_results={rr})"
+        where = lin if via == "linear_grid_scan" else ul
+        try:
+            w = _mk_world(repo, region, rec, cls_of)
+            scan = listnp.T([at("x0"), at("x1"), at("x1"), at("x2"), at("x3")])
+            if via == "linear_grid_scan":
+                out = w.call_func(lin, [Obj("DATA"), Obj("MODEL"), scan, at("LEVEL"), rr], {})
+            else:
+                out = w.call_func(ul, [Obj("DATA"), Obj("MODEL")], {"scan": scan, "level": at("LEVEL"), "return_results": rr})
+            judge(out, rr, f"{UL}::{label}", where, label)
+        except errs as e:
+            ctx.unrecognised(rid, where, label, f"not interpretable: {type(e).__name__}: {e}")
+    # ---- automatic
+    rec = {"hypotest": [], "interp": [], "toms748": []}
+    region = AutoRegion()
+    region.update({"LO": F_(0), "HI": F_(10), "LEVEL": F_(1, 20)})
+
+    def cls_auto(poi, region=region):
+        v = poi.evalf(region)
+        return [F_(9, 10)] * 6 if v < 1 else ([F_(1, 1000)] * 6 if v > 5 else [F_(1, 2)] * 6)
+
+    for rr in (True, False):
+        label = f"upper_limit(scan=None, return_results={rr})"
+        try:
+            w = _mk_world(repo, region, rec, cls_auto)
+            cfg = Obj("config", {"poi_name": "mu"})
+            MODEL = Obj("MODEL", {"config": cfg})
+            w.base[".suggested_bounds"] = lambda r_, a, k: [(at("LO"), at("HI"))] if isinstance(r_, Obj) and r_.name == "config" else (_ for _ in ()).throw(NotHandled())
+            w.base[".par_slice"] = lambda r_, a, k: Obj("slice", {"start": Poly.const(0), "stop": Poly.const(1)}) if isinstance(r_, Obj) and r_.name == "config" else (_ for _ in ()).throw(NotHandled())
+            w.ext = None
+            out = w.call_func(ul, [Obj("DATA"), MODEL], {"level": at("LEVEL"), "return_results": rr})
+            judge(out, rr, f"{UL}::{label}", ul, label)
+        except errs as e:
+            ctx.unrecognised(rid, ul, label, f"not interpretable: {type(e).__name__}: {e}")
